@@ -122,18 +122,19 @@ class _Builder:
     if _PROXY.exists(path):
       raise RuntimeError('table federated_data already exists')
     self.path = path
-    _PROXY.create(path)
-    _PROXY.append(path, b'SQLITE')
+    self.handle = _PROXY.create(path)
+    _PROXY.append(self.handle, b'SQLITE')
 
   def __enter__(self):
     return self
 
   def __exit__(self, *a):
+    _PROXY.close(self.handle)
     return False
 
   def add_many(self, items):
     for cid, data in items:
-      _PROXY.append(self.path, cid + data)
+      _PROXY.append(self.handle, cid + data)
 
 
 class _Examples:
@@ -362,3 +363,45 @@ def cifar2(c1: int, c2: int) -> bool:
   post: __return__
   """
   return not scenario_cifar(fs_model.ModelFS, [c1, c2], 1)
+
+
+def scenario_empty_body(fs_factory, crashes):
+  """maybe_download of a 0-byte body: the (empty) complete file is reused without touching the network."""
+  global VLEN, PIECES
+  saved = (VLEN, PIECES)
+  VLEN, PIECES = 0, []
+  fs = fs_factory()
+  use_fs(fs)
+  _NET.calls = 0
+  _NET.fail_block = -1
+  violations = []
+  try:
+    done = False
+    for c in list(crashes) + [-1]:
+      fs.arm(c, 0)
+      try:
+        path = DL.maybe_download('https://example.org/empty.bin', CACHE, progress_=range)
+        done = True
+      except fs_model.Crash:
+        done = False
+    fs.arm(-1)
+    if not done or not fs.exists(CACHE + '/empty.bin') or fs.read(CACHE + '/empty.bin') != b'':
+      violations.append('empty body not cached as a complete (empty) file')
+    else:
+      before = _NET.calls
+      DL.maybe_download('https://example.org/empty.bin', CACHE, progress_=range)
+      if _NET.calls != before:
+        violations.append('a complete (empty) cached file was fetched again')
+  finally:
+    VLEN, PIECES = saved
+    if hasattr(fs, 'cleanup'):
+      fs.cleanup()
+  return violations
+
+
+def empty_body(c1: int) -> bool:
+  """
+  pre: -1 <= c1 <= 4
+  post: __return__
+  """
+  return not scenario_empty_body(fs_model.ModelFS, [c1] if c1 >= 0 else [])
